@@ -201,6 +201,7 @@ pub fn run(rep: &mut Rep) {
                 }
                 let mut rng = Rng::derive(seed, "c03a", case);
                 let mut c = Ctl::new(&mut rng);
+                c.any_alg = true;
                 c.top_mask = Some(*mask);
                 c.nested = if r % 2 == 0 { Some(true) } else { None };
                 c.small = r % 2 == 1;
@@ -232,6 +233,7 @@ pub fn run(rep: &mut Rep) {
                 }
                 let mut rng = Rng::derive(seed, "c03b", case);
                 let mut c = Ctl::new(&mut rng);
+                c.any_alg = true;
                 c.top_mask = Some(u64::MAX);
                 c.focus = Some((nk, mask));
                 c.small = true;
@@ -350,6 +352,7 @@ pub fn run(rep: &mut Rep) {
         let mut rng = Rng::derive(seed, "c03e", case);
         let which = rng.below(9);
         let mut c = Ctl::new(&mut rng);
+                c.any_alg = true;
         c.small = false;
         if !rep.begin("standalone-types") {
             continue;
